@@ -58,6 +58,7 @@ Lemma reserved_exact_tt : is_reserved SColumn "_data_table_temp_col" = true. Pro
 Lemma reserved_exact_tg : is_reserved SColumn "_data_algebra_temp_g" = true. Proof. vm_compute. reflexivity. Qed.
 Lemma reserved_exact_oi : is_reserved SColumn "_data_algebra_orig_index" = true. Proof. vm_compute. reflexivity. Qed.
 Lemma reserved_exact_merge : is_reserved SColumn "data_algebra_temp_merge_col" = true. Proof. vm_compute. reflexivity. Qed.
+Lemma reserved_exact_nullkey : is_reserved SColumn "data_algebra_temp_null_key_col" = true. Proof. vm_compute. reflexivity. Qed.
 
 Lemma is_reserved_entry sp e n : In e reserved -> rspace_eqb (r_space e) sp = true -> rmatch e n = true -> is_reserved sp n = true.
 Proof. intros I S M. unfold is_reserved. apply existsb_exists. exists e. split; [exact I|]. rewrite S, M. reflexivity. Qed.
@@ -95,6 +96,12 @@ Proof.
   rewrite E in H. vm_compute in H. discriminate.
 Qed.
 
+Lemma right_not_nullkey c : c ++ "_tmp_right_col" <> "data_algebra_temp_null_key_col".
+Proof.
+  intros E. assert (H : ends_with "_tmp_right_col" (c ++ "_tmp_right_col") = true) by apply ends_with_app.
+  rewrite E in H. vm_compute in H. discriminate.
+Qed.
+
 Theorem hard_good_project u : outside_reserved u -> good_project hard u.
 Proof.
   intros O. constructor; cbn [hard n_table_temp n_proj_tmp].
@@ -118,10 +125,13 @@ Qed.
 
 Theorem hard_good_join common u : outside_reserved u -> good_join hard common u.
 Proof.
-  intros O. constructor; cbn [hard n_merge n_right].
+  intros O. constructor; cbn [hard n_merge n_nullkey n_right].
   - apply (outside_not_in u _ O reserved_exact_merge).
   - intros c _. apply (outside_not_in u _ O (reserved_right c)).
   - intros c _. apply right_not_merge.
+  - apply (outside_not_in u _ O reserved_exact_nullkey).
+  - intros c _. apply right_not_nullkey.
+  - discriminate.
   - intros a b _ _ E. apply str_app_inv_tail in E. exact E.
 Qed.
 
@@ -148,10 +158,13 @@ Qed.
 
 Theorem fresh_good_join common u : good_join (fresh u) common u.
 Proof.
-  constructor; cbn [fresh n_merge n_right].
+  constructor; cbn [fresh n_merge n_nullkey n_right].
   - apply padded_fresh.
   - intros c _. apply padded_fresh.
   - intros c _ E. apply str_app_inv_head in E. exact (right_not_merge c E).
+  - apply padded_fresh.
+  - intros c _ E. apply str_app_inv_head in E. exact (right_not_nullkey c E).
+  - intros E. apply str_app_inv_head in E. discriminate.
   - intros a b _ _ E. apply str_app_inv_head, str_app_inv_tail in E. exact E.
 Qed.
 Local Close Scope string_scope.
@@ -174,9 +187,10 @@ Proof.
 Qed.
 Lemma good_join_sub sn common u v : (forall c, In c v -> In c u) -> good_join sn common u -> good_join sn common v.
 Proof.
-  intros S [a b c d]. constructor; [| |exact c|exact d].
+  intros S [a b c d e f g]. constructor; [| |exact c| |exact e|exact f|exact g].
   - intro H. apply a, S, H.
   - intros x Hx H. apply (b x Hx), S, H.
+  - intro H. apply d, S, H.
 Qed.
 
 Record good_names {A} (sn : pnames) (s : pstep) (f g : frame A) : Prop := mkgn {
@@ -246,11 +260,11 @@ Theorem extend_const_capture_refuted :       (* an unrelated column is called da
 Proof. apply eqb_false_neq. vm_compute. reflexivity. Qed.
 
 Theorem join_merge_key_capture_refuted :     (* a keyless join; a left column is called data_algebra_temp_merge_col: overwritten, then deleted *)
-  wit (PJoin "CROSS" []) ["g"; "data_algebra_temp_merge_col"] ["q"].
+  wit (PJoin "CROSS" [] false) ["g"; "data_algebra_temp_merge_col"] ["q"].
 Proof. apply eqb_false_neq. vm_compute. reflexivity. Qed.
 
 Theorem join_suffix_capture_refuted :        (* x is shared and not a key; a left column is called x_tmp_right_col: the merge raises *)
-  wit (PJoin "LEFT" ["k"]) ["k"; "x"; "x_tmp_right_col"] ["k"; "x"] /\ pexec sym hard (PJoin "LEFT" ["k"]) (sframe "<L:" ["k"; "x"; "x_tmp_right_col"]) (sframe "<R:" ["k"; "x"]) = None.
+  wit (PJoin "LEFT" ["k"] false) ["k"; "x"; "x_tmp_right_col"] ["k"; "x"] /\ pexec sym hard (PJoin "LEFT" ["k"] false) (sframe "<L:" ["k"; "x"; "x_tmp_right_col"]) (sframe "<R:" ["k"; "x"]) = None.
 Proof. split; [apply eqb_false_neq; vm_compute; reflexivity|vm_compute; reflexivity]. Qed.
 
 (* the same frames with ordinary names satisfy the guard of hard_no_capture_outside_reserved (non-vacuity) *)
